@@ -4,6 +4,12 @@
 // GetDatabaseName like reader.TargetClient does, once with a nil target (Kafka downstream) - calls the real
 // GetAllDroppedObj() and logs the table the way the writer consumes it: for every name of the universe the value
 // found under util.Get*InfoKeys(name) (as model ticks), plus every raw key no name asks for.
+//
+// Time: a catalog names the source's current time (cat.now, the TSO key) and - when it has the field - what the clock
+// of this host shows when the snapshot is taken (cat.local), both in model ticks (ms).  The driver chooses the origin of
+// the model ticks per plan so that the real wall clock reads cat.local when the plan starts: the TSO key it writes is
+// then really cat.now-cat.local ms ahead of (or behind) time.Now().  Catalogs without cat.local use the fixed origin
+// of package catalog (2023: years behind every wall clock).
 package main
 
 import (
@@ -12,6 +18,7 @@ import (
 	"os"
 	"reflect"
 	"sort"
+	"time"
 	"unsafe"
 
 	"github.com/sasha-s/go-deadlock"
@@ -78,15 +85,15 @@ func closeOp(op api.MetaOp) {
 	_ = cli.Close()
 }
 
-func clampTick(v uint64) int {
-	t := catalog.Tick(v)
+func clampTick(clk catalog.Clock, v uint64) int {
+	t := clk.Tick(v)
 	if t < -1 {
 		return -1
 	}
 	if t > 1_000_000 {
 		return 1_000_000
 	}
-	return t
+	return int(t)
 }
 
 func main() {
@@ -111,6 +118,10 @@ func main() {
 			}
 			return s
 		}
+		clk := catalog.FixedClock()
+		if _, ok := cat["local"]; ok {
+			clk = catalog.ClockWithLocal(time.Now(), hx.I(cat, "local"))
+		}
 		root := fmt.Sprintf("c15-%d-%d", os.Getpid(), n)
 		w := srv.Writer(root)
 		defer w.Clear()
@@ -123,7 +134,7 @@ func main() {
 		for _, d := range hx.ML(cat, "dbs") {
 			name, id := hx.S(d, "name"), int64(hx.I(d, "id"))
 			if hx.S(d, "st") == "live" {
-				w.PutDatabase(id, conc(name), catalog.HybridTs(1))
+				w.PutDatabase(id, conc(name), clk.HybridTs(1))
 				dbLive[name] = true
 			} else {
 				w.TombstoneDatabase(id)
@@ -142,10 +153,10 @@ func main() {
 				continue
 			}
 			w.PutCollection(catalog.Collection{DbID: dbid, ID: id, Name: conc(hx.S(c, "name")),
-				State: catalog.CollectionState(st), CreateTime: catalog.HybridTs(hx.I(c, "ct"))})
+				State: catalog.CollectionState(st), CreateTime: clk.HybridTs(hx.I(c, "ct"))})
 			// every collection has its default partition, created together with it and never dropped on its own
 			w.PutPartition(catalog.Partition{CollID: id, ID: id*100 + 99, Name: "_default",
-				State: catalog.PartitionState("created"), CreateTime: catalog.HybridTs(hx.I(c, "ct"))})
+				State: catalog.PartitionState("created"), CreateTime: clk.HybridTs(hx.I(c, "ct"))})
 			visColl[id] = true
 			if i, ok := downIdx[hx.S(c, "db")]; ok {
 				down[i].colls[conc(hx.S(c, "name"))] = true
@@ -158,9 +169,10 @@ func main() {
 				continue
 			}
 			w.PutPartition(catalog.Partition{CollID: cid, ID: id, Name: conc(hx.S(pt, "name")),
-				State: catalog.PartitionState(st), CreateTime: catalog.HybridTs(hx.I(pt, "ct"))})
+				State: catalog.PartitionState(st), CreateTime: clk.HybridTs(hx.I(pt, "ct"))})
 		}
-		w.PutTSO(catalog.TimeOfTick(hx.I(cat, "now")))
+		tso := clk.TimeOfTick(hx.I(cat, "now")) // the source's current time, wherever the local clock is
+		w.PutTSO(tso)
 
 		// ---- call the real code, once per kind of downstream
 		var evs []hx.Event
@@ -175,15 +187,25 @@ func main() {
 				fmt.Fprintln(os.Stderr, "NewEtcdOp:", err)
 				os.Exit(3)
 			}
+			before := time.Now()
 			table := op.GetAllDroppedObj()
+			after := time.Now()
 			closeOp(op)
+			// where the TSO key really was relative to this host's clock while the snapshot was taken (evidence that the
+			// plan's skew was realised; the contract does not look at it)
+			rel := "crossed"
+			if tso.After(after) {
+				rel = "ahead"
+			} else if !tso.After(before) {
+				rel = "notahead"
+			}
 
 			hit := map[string]bool{}
 			lk := []hx.Event{}
 			look := func(kind, tkey, key, d, c, pn string) {
 				e := hx.Event{"kind": kind, "db": d, "coll": c, "part": pn, "has": false, "t": 0}
 				if v, ok := table[tkey][key]; ok {
-					e["has"], e["t"] = true, clampTick(v)
+					e["has"], e["t"] = true, clampTick(clk, v)
 					hit[kind+":"+key] = true
 				}
 				lk = append(lk, e)
@@ -229,7 +251,7 @@ func main() {
 			for range table {
 				kinds++
 			}
-			evs = append(evs, hx.Event{"op": "snapshot", "mode": mode, "cat": cat, "lk": lk, "extra": extra, "tome": tome, "kinds": kinds})
+			evs = append(evs, hx.Event{"op": "snapshot", "mode": mode, "cat": cat, "lk": lk, "extra": extra, "tome": tome, "kinds": kinds, "rel": rel})
 		}
 		return evs
 	})
